@@ -205,7 +205,16 @@ func (t *Tables) Scan(start int, text string) (size, action int) {
 			return start, actionStart - state
 		}
 	}
-	state = t.Dfa[state*t.NumSymbols] // end-of-input transition
+	// End-of-input transitions: a rule can continue after {eoi}, so follow them until an action is reached.
+	for state >= 0 {
+		state = t.Dfa[state*t.NumSymbols]
+		if state < 0 && state > actionStart {
+			bt := t.Backtrack[-1-state]
+			// Checkpoint.
+			action, state = bt.Action, bt.NextState
+			size = len(text)
+		}
+	}
 	if actionStart == state && size > 0 {
 		// Backtrack.
 		return
